@@ -172,7 +172,7 @@ func runC04(c *Ctx) {
 			c.Inc("accepted_with_limit_above_coresize")
 		}
 		nw := r.Range(1, 4)
-		if m >= 64 && m <= 4096 && r.Chance(1, 60) {
+		if m >= 64 && m <= 4096 && cfg.Processes <= 4096 && r.Chance(1, 60) {
 			nw = r.Range(129, 300) // a melee: more warriors than fit in a byte
 			c.Inc("melees_with_more_than_128_warriors")
 		}
